@@ -102,6 +102,14 @@ def catalogue():
         assign("y", V("x")),                      # copy chains: widening must travel along them
         assign("z", V("y")),
         assign("w", V("z")),
+        # built-ins whose declared result kind depends on the kinds of their arguments (possibly not yet known)
+        acall(["w"], "<builtin>dot_product", [V("y"), V("y")]),
+        assign("x", ["call", V("<builtin>dot_product"), [V("y"), V("z")], []]),
+        acall(["w"], "<builtin>matmul", [V("y"), V("y"), C(1), C(1)]),
+        acall(["w"], "<builtin>linear_solve", [V("y"), V("y"), C(1), C(1)]),
+        acall(["w"], "<builtin>elementwise_abs", [V("y")]),
+        assign("x", ["call", V("<builtin>norm_inf"), [V("y")], []]),
+        assign("y", ["prod", [V("y"), ["cx", 0, 1]]]),            # makes the array complex
     ]
 
 
@@ -236,7 +244,10 @@ def run(chk):
             for q in splits:
                 progs_.append({"P": [i for i in comb if i not in q], "Q": list(q)})
     if chk.quick:
-        progs_ = [p for p in progs_ if not p["Q"]] + rng.sample([p for p in progs_ if p["Q"]], 2000)
+        one = [p for p in progs_ if not p["Q"]]
+        small = [p for p in one if len(p["P"]) <= 3]
+        four = [p for p in one if len(p["P"]) == 4]
+        progs_ = small + rng.sample(four, min(len(four), 7000)) + rng.sample([p for p in progs_ if p["Q"]], 2000)
     else:
         big = [p for p in progs_ if len(p["P"]) == 5]
         progs_ = [p for p in progs_ if len(p["P"]) + len(p["Q"]) < 5] + rng.sample(big, min(len(big), 6000))
